@@ -772,6 +772,18 @@ class Gen:
         if getattr(self, "both_given", False) and "amount" not in r and ("percent" in r or "rate" in r) and self.rng.random() < 0.15:
             r["amount"] = self.amt(maxv, dec)
 
+    def subline(self, tie):
+        """one sub-line (member of a line's `breakdown` or `substituted`), priced in the document's currency"""
+        rng = self.rng
+        sl = {"quantity": self.amt(300, 2, True), "item": {"name": "s", "price": self.amt(20000, rng.choice([0, 2, 3, 4]), tie=tie)}}
+        sd = self.ldc(False, tie)
+        sc = self.ldc(True, tie)
+        if sd:
+            sl["discounts"] = sd
+        if sc:
+            sl["charges"] = sc
+        return sl
+
     def doc(self, c03=False, force_rule=None, regimes=("ES", "ES", "ES", "EL", "PT"), max_lines=5, big=False):
         """c03: restrict to the hypothesis of C03 (fixed amounts supplied at the currency's precision)."""
         rng = self.rng
@@ -820,14 +832,30 @@ class Gen:
             elif r < 0.32:
                 l["breakdown"] = []
                 for _ in range(rng.randint(1, 3)):
-                    sl = {"quantity": self.amt(300, 2, True), "item": {"name": "s", "price": self.amt(20000, rng.choice([0, 2, 3, 4]), tie=tie)}}
-                    sd = self.ldc(False, tie)
-                    sc = self.ldc(True, tie)
-                    if sd:
-                        sl["discounts"] = sd
-                    if sc:
-                        sl["charges"] = sc
-                    l["breakdown"].append(sl)
+                    l["breakdown"].append(self.subline(tie))
+            if getattr(self, "sub_currency", False):
+                # sub-lines are priced like lines: their items may be in another currency (converted through the document's
+                # exchange rates or replaced by an alternative price), with fewer / as many / more decimals than the
+                # document's currency; calculation REWRITES such an item (price, currency, alt_prices), so what it derives
+                # from the sub-line items (the line's price and its precision) must not depend on whether it reads them
+                # before or after that rewriting. The same for `substituted` sub-lines (calculated, not summed).
+                if "breakdown" not in l and rng.random() < 0.06:
+                    l["breakdown"] = [self.subline(tie) for _ in range(rng.randint(1, 3))]
+                if rng.random() < 0.1:
+                    l["substituted"] = [self.subline(tie) for _ in range(rng.randint(1, 2))]
+                for sl in l.get("breakdown", []) + l.get("substituted", []):
+                    k = rng.random()
+                    if k < 0.3:
+                        sl["item"]["currency"] = other
+                        rate = rng.choice(["0.875967", "149.31", "0.31", "1.1", "0.5", "1.25", "0.305", "1", "0.01"])
+                        doc.setdefault("exchange_rates", [{"from": other, "to": curc, "amount": rate}])
+                    elif k < 0.5:
+                        sl["item"]["currency"] = other
+                        sl["item"]["alt_prices"] = [{"currency": curc, "value": self.amt(90000, rng.choice([0, 1, 2, 3, 4]))}]
+                    elif k < 0.56:
+                        sl["item"]["currency"] = curc          # the document's own currency, spelled out
+                    if "currency" in sl["item"] and rng.random() < 0.5:
+                        sl["item"]["price"] = self.amt(20000, rng.choice([c + 1, c + 2, 6, 3]), tie=tie)
             if not l["taxes"]:
                 del l["taxes"]
             doc["lines"].append(l)
